@@ -6,8 +6,23 @@ invariant of the ContextCond LTS, and its consequences.
 namespace Juniper.Proofs.Cond
 open Juniper.Model.Cond
 
-/-- Tie 1: the configuration regenerated from `xsync.go` is the one the proofs are about. -/
-theorem cfg_gen : Cfg.gen = Cfg.std := by decide
+/-- `p`, claimed only for a source for which the tie `k` holds (the dependency is part of the proof term) -/
+theorem under {k p : Prop} (_tie : k) (h : p) : p := h
+
+/-- What the statement-level facts take for granted: `c.m` is the standard library's `sync.RWMutex` (not a
+local type with the same method names), `c.ch` a `chan struct{}`, `c.L` a `sync.Locker`; `Broadcast`, `Signal`
+and `Wait` have pointer receivers (a value receiver would lock and replace a copy); `NewContextCond` stores the
+caller's locker and one fresh channel and nothing else. -/
+theorem condWiring_tie :
+    Gen.Cond.condFields = [("m", "sync.RWMutex"), ("ch", "chan struct{}"), ("L", "sync.Locker")] ∧
+    Gen.Cond.condImports = [("sync", "sync")] ∧ Gen.Cond.condLocalTypes = [] ∧
+    Gen.Cond.condReceivers = [("Broadcast", "*ContextCond"), ("Signal", "*ContextCond"), ("Wait", "*ContextCond")] ∧
+    Gen.Cond.newContextCondStmts = ["return &ContextCond{ L: l, ch: make(chan struct{}, 1), }"] := by decide
+
+/-- Tie 1: the configuration regenerated from `xsync.go` is the one the proofs are about — select arms,
+capacities, arm bodies, and the **ordered** statement lists of `Wait`, `Signal` and `Broadcast` (`sigOps`,
+`bcOps`: lock operations included, compared as lists, not as sets). -/
+theorem cfg_gen : Cfg.gen = Cfg.std := under condWiring_tie (by decide)
 
 /-! ## basic facts about `setPc` / `chanAt` -/
 
@@ -104,7 +119,7 @@ theorem step_arrive {s s' : State} {i : Nat} {c : Choice} (h : step Cfg.std s (.
 
 theorem step_signal_some {s s' : State} {i : Nat} (h : step Cfg.std s (.signal (some i)) = some s') :
     (chanAt s s.cur).closed = false ∧ pcOf s i = some (.parked s.cur) ∧ s' = setPc s i (.woken false) := by
-  simp only [step, Cfg.std, Bool.not_true, Bool.false_eq_true, if_false, Bool.true_and, afterWake, if_true] at h
+  simp only [step, sendOn, Cfg.std, Bool.not_true, Bool.false_eq_true, if_false, Bool.true_and, afterWake, if_true] at h
   split at h
   · cases h
   · rename_i hcl
@@ -118,7 +133,7 @@ theorem step_signal_none {s s' : State} (h : step Cfg.std s (.signal none) = som
       ((chanAt s s.cur).buf < (chanAt s s.cur).cap ∧
           s' = { s with chans := s.chans.set s.cur { chanAt s s.cur with buf := (chanAt s s.cur).buf + 1 } }
        ∨ ¬ (chanAt s s.cur).buf < (chanAt s s.cur).cap ∧ s' = s) := by
-  simp only [step, Cfg.std, Bool.not_true, Bool.false_eq_true, if_false, Bool.true_and, if_true] at h
+  simp only [step, sendOn, Cfg.std, Bool.not_true, Bool.false_eq_true, if_false, Bool.true_and, if_true] at h
   split at h
   · cases h
   · rename_i hcl
@@ -1028,9 +1043,10 @@ theorem runinv_final {s0 s' : State} {m : Nat} (hR : RunInv s0 s' m) (hu : nUnpa
   · have hP : nParked s' = 0 := nParked_zero_of_noParked hR.inv (hR.inv.buf_parked (by omega))
     omega
 
-/-- Observation recorded in notes/C16.md (not a property clause): a token remembered for a waiter that
-has released the lock but is not yet parked can be taken by a waiter that enters `Wait` only after
-the `Signal`; the earlier waiter then parks. Wake-ups are therefore counted, never attributed. -/
+/-- A token remembered for a waiter that has released the lock but is not yet parked can be taken by a waiter
+that enters `Wait` only after the `Signal`; the earlier waiter then parks. Under the property text ("m Signal
+calls wake at least min(k, m) *of them*") this is a lost wake-up with k = 1, m = 1: second refutation of the
+clause, `Props.C16.signal_wakes_min_late_entrant_false` (open known finding, D13 family). -/
 theorem late_entrant_takes_token :
     ∃ s, run Cfg.std (init Cfg.std 2)
         [.start 0, .release 0, .signal none, .start 1, .release 1, .arrive 1 .recv, .relock 1, .arrive 0 .park] = some s ∧
